@@ -131,7 +131,22 @@ def _fold_agreement(repo, fn, clause):
     gk = [c for c in calls_in(fn) if call_name(c) == "group_duplicates"]
     ok = len(gk) == 1 and kwarg(gk[0], "key") is not None and isinstance(kwarg(gk[0], "key"), ast.Lambda) and \
         any(isinstance(c, ast.Call) and call_name(c) == "sorted" for c in ast.walk(kwarg(gk[0], "key")))
-    obs.append(Ob("Cidx", clause, fn, gk[0] if gk else fn.node, ok, "duplicate grouping key is the sorted tuple of folded atom indices (order-free)", slot="group-key-sorted"))
+    # an order-free key must still keep MULTIPLICITY: a match may contain an atom and its own periodic image (folded to the same index twice); a set / frozenset
+    # key merges {A, A, B} with {A, B, B}, the sorted tuple does not
+    setkey = None
+    if len(gk) == 1 and kwarg(gk[0], "key") is not None:
+        kx = expand(fn, kwarg(gk[0], "key"))
+        body = kx.body if isinstance(kx, ast.Lambda) else None
+        if body is not None and isinstance(body, ast.Call) and isinstance(body.func, ast.Name) and body.func.id in ("frozenset", "set") \
+                and not any(isinstance(c, ast.Call) and call_name(c) in ("sorted", "Counter") for c in ast.walk(body)):
+            setkey = body
+    if setkey is not None:
+        obs.append(Ob("Cidx", clause, fn, gk[0], False,
+                      "duplicate grouping key `%s` is a SET of folded atom indices: it is order-free but also drops multiplicity - two different occurrences that use the same atoms a "
+                      "different number of times (an atom together with its own periodic image: {A, A, B} and {A, B, B}) are merged into one" % ast.unparse(setkey)[:60],
+                      slot="group-key-sorted", positive="robust"))
+    else:
+        obs.append(Ob("Cidx", clause, fn, gk[0] if gk else fn.node, ok, "duplicate grouping key is the sorted tuple of folded atom indices (order-free)", slot="group-key-sorted"))
     gd = repo.fn("group_duplicates")
     appends = [c for c in calls_in(gd) if isinstance(c.func, ast.Attribute) and c.func.attr == "append"]
     stores = [n for n in gd.own_nodes() if isinstance(n, ast.Assign) and isinstance(n.targets[0], ast.Subscript)]
